@@ -487,6 +487,31 @@ func runC21(c *core.Ctx) {
 			c.Sample(sc.String())
 		}
 	}
+	// outgoing side, whole instance: a real requestor with an outgoing maximum of 1 issues requests A and B
+	// (then C) to a scripted responder; every sequence of up to 3 distinct events from {cancel A/B/C by
+	// context or API, responder answers A/B/C, issue C}; at every quiescent point at most one request runs,
+	// and every request that was answered and not cancelled completes
+	for _, mc := range c23MultiCases() {
+		idx++
+		if !c.Mine(idx) {
+			continue
+		}
+		_, stats, _, notDone, panicked := c23MultiRun(mc)
+		c.Res.Evaluations++
+		c.Res.Traces++
+		c.Res.Transitions += int64(len(mc.Evs) + 2)
+		c.Class(fmt.Sprintf("requestor-instance max-running=%d", c23MaxRunning))
+		c.Count("requestor_instance_histories", 1)
+		what := fmt.Sprintf("one outgoing worker, requests A and B issued, then %v: ", mc.Evs)
+		switch {
+		case panicked != "":
+			c.Violate("panic/requestor-instance", what+panicked, mc)
+		case c23MaxRunning > 1:
+			c.Violate("outgoing-maximum-exceeded/requestor-instance", fmt.Sprintf("%s%d requests running at a quiescent point, the outgoing maximum is 1", what, c23MaxRunning), mc)
+		case len(notDone) > 0:
+			c.Violate("queued-outgoing-request-never-executed/requestor-instance", fmt.Sprintf("%srequests that were answered and not cancelled did not complete: %v (stats %s)", what, notDone, stats), mc)
+		}
+	}
 	// whole-instance part: a real responder with configured limits serving three
 	// requests of one peer (responder world, rsp.go)
 	for _, w := range []int{1, 2} {
@@ -612,7 +637,7 @@ func c21JudgeInstance(cs rspCase, o *rspObs) *core.Violation {
 
 func init() {
 	core.Register(&core.Prop{ID: "C21", Level: "model_checking",
-		Rule:        "(0) whole instance: a real responder with MaxInProgressIncomingRequests W in {1,2} and per-peer maximum M in {0,1,2} serves three requests of one peer with cancels and late arrivals, event level and all schedules within deviation bound 1: active counts within the limits at every quiescent point, every received un-cancelled request completes; (a) scenarios W in {1,2,3} workers x per-peer maximum M in {0,1,2} x 6 (thorough 8) task layouts over <=3 peers (one pusher thread per peer, one finisher thread per task so completion order is a scheduling choice) + removals racing with pops; all schedules within the deviation bound on the real WorkerTaskQueue; (b) explicit-state search for starvation lassos: BFS over push/finish event histories on the real queue and workers (quiescing after each event), abstract state = per-peer (pending, running), a cycle along which another peer's single queued task is never started while tasks start and finish, then pumped 100 rounds on the real queue; a class is a distinct (W, M, ran/not-run) outcome",
+		Rule:        "(0') outgoing side: a real requestor with an outgoing maximum of 1, requests A, B (and C) to a scripted responder, every sequence of up to 3 distinct events from {cancel by context/API, responder answers, issue C}: at most one request running at every quiescent point and every answered, un-cancelled request completes; (0) whole instance: a real responder with MaxInProgressIncomingRequests W in {1,2} and per-peer maximum M in {0,1,2} serves three requests of one peer with cancels and late arrivals, event level and all schedules within deviation bound 1: active counts within the limits at every quiescent point, every received un-cancelled request completes; (a) scenarios W in {1,2,3} workers x per-peer maximum M in {0,1,2} x 6 (thorough 8) task layouts over <=3 peers (one pusher thread per peer, one finisher thread per task so completion order is a scheduling choice) + removals racing with pops; all schedules within the deviation bound on the real WorkerTaskQueue; (b) explicit-state search for starvation lassos: BFS over push/finish event histories on the real queue and workers (quiescing after each event), abstract state = per-peer (pending, running), a cycle along which another peer's single queued task is never started while tasks start and finish, then pumped 100 rounds on the real queue; a class is a distinct (W, M, ran/not-run) outcome",
 		Assumptions: []string{"a task's duration is the scheduling of its finisher thread", "eventually = at final quiescence after the ticker horizon (6 idle thaw ticks)", "lasso abstraction: per-peer counts; every reported lasso is confirmed by replaying 100 rounds on the real queue"},
 		Run:         runC21, QuickBudget: 300, ThoroughBudget: 2400,
 		Replay: func(raw json.RawMessage) string {
@@ -624,6 +649,19 @@ func init() {
 			}
 			if err := json.Unmarshal(raw, &w); err != nil {
 				return err.Error()
+			}
+			var mc c23Multi
+			if json.Unmarshal(raw, &mc) == nil && mc.Multi {
+				_, stats, _, notDone, panicked := c23MultiRun(mc)
+				switch {
+				case panicked != "":
+					return "panic/requestor-instance: " + panicked
+				case c23MaxRunning > 1:
+					return fmt.Sprintf("outgoing-maximum-exceeded/requestor-instance: %d running", c23MaxRunning)
+				case len(notDone) > 0:
+					return fmt.Sprintf("queued-outgoing-request-never-executed/requestor-instance: %v (stats %s)", notDone, stats)
+				}
+				return "ok"
 			}
 			if w.Instance != nil || strings.Contains(string(raw), `"hook"`) {
 				var cs rspCase
